@@ -13,6 +13,14 @@ package c04
 // the one behind the published commitments), which scalar it put into every encrypted slot and which complaint
 // proofs it built honestly; from these it derives with math/big + ref/tssverify.go which shares are inconsistent,
 // which complaints must succeed, who may be marked malicious and what the key material of an ACTIVE group must be.
+//
+// Encoding malleability (c04Member.Alt): independently of the deviations, members may write the curve points of an
+// otherwise unchanged message (round-1 one-time key, A0, higher commitments; complaint key-sym) in another accepted
+// encoding of the same point. Such a member follows the protocol; the chain may refuse the message (no trace, the
+// member then sends the canonical bytes) or accept it - the model follows the tx result - and everybody who later
+// uses those points does so through the daemon's code on the bytes the chain serves, so a disagreement between what
+// the chain hashes / decrypts with and what a daemon computes surfaces as an honest member blamed, a justified
+// complaint failing or inconsistent keys of an ACTIVE group. The model itself keeps every point in canonical form.
 
 import (
 	"bytes"
@@ -49,7 +57,7 @@ type c04Member struct {
 	Poly string `json:"poly"`           // lib | det | small | big | same
 	Seed uint32 `json:"seed,omitempty"` //
 	R1   string `json:"r1,omitempty"`   // "" | stop | short | long | bada0 | badot | replay | wrongmid | mismatch | negate
-	R2   string `json:"r2,omitempty"`   // "" | stop | flip | scalar | plusn | nonce | wrongkey | swap | short | long | wrongmid
+	R2   string `json:"r2,omitempty"`   // "" | stop | flip | scalar | plusn | nonce | wrongkey | swap | short | long | wrongmid | badlen
 	R3   string `json:"r3,omitempty"`   // "" | stop | false | mixed | badkeysym | badsig | nonmember | self | impersonate | badconfirm | forged
 	Fix1 bool   `json:"fix1,omitempty"` // after a rejected round-k deviation submit what the daemon would (else the member is gone)
 	Fix2 bool   `json:"fix2,omitempty"`
@@ -102,8 +110,8 @@ type c04Case struct {
 var (
 	r1Devs = []string{"stop", "short", "long", "bada0", "badot", "replay", "wrongmid", "mismatch", "negate"}
 	r1W    = []int{3, 4, 4, 5, 5, 6, 3, 8, 5}
-	r2Devs = []string{"stop", "flip", "scalar", "plusn", "nonce", "wrongkey", "swap", "short", "long", "wrongmid"}
-	r2W    = []int{3, 9, 9, 3, 5, 5, 7, 3, 3, 2}
+	r2Devs = []string{"stop", "flip", "scalar", "plusn", "nonce", "wrongkey", "swap", "short", "long", "wrongmid", "badlen"}
+	r2W    = []int{3, 9, 9, 3, 5, 5, 7, 3, 3, 2, 10}
 	r3Devs = []string{"stop", "false", "mixed", "badkeysym", "badsig", "nonmember", "self", "impersonate", "badconfirm", "forged"}
 	r3W    = []int{3, 11, 6, 12, 6, 4, 3, 3, 7, 16}
 )
@@ -334,6 +342,7 @@ type mem struct {
 	attempts int
 	inFlight [4]bool // a well-formed round-k submission was already produced
 	lastMsg  [4]*item
+	altOK    [4]bool // round k: a message with alternatively encoded points was accepted
 	noAlt    [4]bool // round k: the alternative encoding was refused, the member now sends the canonical bytes
 	strict   bool    // follows the protocol in every respect
 	reasons  []reason
@@ -918,6 +927,37 @@ func (w *world) buildR2(m *mem, deviate bool) *item {
 	case "long":
 		enc = append(enc, enc[len(enc)-1].Clone())
 		it.wellFormed = false
+	case "badlen": // the right number of shares, ONE of them not a 48-byte ciphertext: the message is malformed as a whole
+		idx := 0
+		switch v % 4 {
+		case 2: // a middle slot (the first one if there is none)
+			if len(enc) > 2 {
+				idx = 1 + m.spec.To%(len(enc)-2)
+			}
+		case 3:
+			idx = len(enc) - 1
+		}
+		switch (v / 4) % 4 {
+		case 0:
+			enc[idx] = enc[idx][:len(enc[idx])-1]
+		case 1:
+			enc[idx] = append(enc[idx], 0x00)
+		case 2:
+			enc[idx] = tss.EncSecretShare{}
+		default:
+			enc[idx] = enc[idx][:32] // the encrypted value without its nonce
+		}
+		a.slots[idx].mangled = true
+		it.wellFormed = false
+		switch {
+		case idx == len(enc)-1:
+			w.v.Class("r2-malformed-share-length:last")
+		case idx == 0:
+			w.v.Class("r2-malformed-share-length:first")
+		default:
+			w.v.Class("r2-malformed-share-length:middle")
+		}
+		w.v.Count("r2_malformed_share_length", 1)
 	case "wrongmid":
 		it.claimed = w.target(m, m.spec.To).id
 	}
@@ -1281,6 +1321,19 @@ func (w *world) buildR3(m *mem, deviate bool) *item {
 		switch v % 3 {
 		case 0:
 			priv = scalarOf(modN(new(big.Int).Add(bigOf(priv), big.NewInt(1))))
+			// own+1 must really be a wrong key: a member whose own share is off by one from its commitments (mismatch
+			// in the constant term) would otherwise hit the key the chain derived from the commitments
+			right := new(big.Int)
+			for _, j := range w.mems {
+				if j.committed == nil {
+					right = nil
+					break
+				}
+				right = modN(right.Add(right, ref.TSSEvalPoly(j.committed, uint64(m.id))))
+			}
+			if right != nil && bigOf(priv).Cmp(right) == 0 {
+				priv = scalarOf(modN(new(big.Int).Add(bigOf(priv), big.NewInt(1))))
+			}
 			if bigOf(priv).Sign() == 0 {
 				priv = scalarOf(big.NewInt(2))
 			}
@@ -1438,11 +1491,11 @@ func (w *world) expect(it *item) (bool, bool, string) {
 	if !it.wellFormed {
 		return false, true, "malformed content (" + it.label + ")"
 	}
-	if it.eitherOK {
-		return true, false, "alternative encoding of the same points"
-	}
 	if w.accBroken && k <= 2 {
 		return false, false, "accumulated commitment is the point at infinity"
+	}
+	if it.eitherOK {
+		return true, false, "alternative encoding of the same points"
 	}
 	return true, true, ""
 }
@@ -1499,6 +1552,8 @@ func (w *world) observe(res *sim.BlockResult) {
 			}
 			if !got {
 				w.v.Count("altenc_refused:"+shortLog(tr.Log), 1)
+			} else if it.m != nil {
+				it.m.altOK[roundOf(it.kind)] = true
 			}
 		}
 		if os.Getenv("VERIF_C04_DEBUG") != "" {
@@ -1576,6 +1631,12 @@ func (w *world) observe(res *sim.BlockResult) {
 				switch {
 				case d.genuine && d.expectSuccess:
 					w.v.Class("complaint:true:" + ord)
+					if int(d.respondent) >= 1 && int(d.respondent) <= w.n && w.mems[d.respondent-1].altOK[1] {
+						w.v.Class("altenc-r1-dealer:true-complaint-against")
+					}
+					if m.altOK[1] {
+						w.v.Class("altenc-r1-member:true-complaint-by")
+					}
 					if !success {
 						w.fail("C04/cheater-not-caught", "member %d (%s) complained with a correct proof about the inconsistent share dealt by %d, but the complaint failed (n=%d t=%d)",
 							d.complainant, d.label, d.respondent, w.n, w.t)
@@ -1585,6 +1646,12 @@ func (w *world) observe(res *sim.BlockResult) {
 					w.mustNotAct = fmt.Sprintf("dealer %d was caught by member %d", d.respondent, d.complainant)
 				case d.genuine:
 					w.v.Class("complaint:false:" + ord)
+					if int(d.respondent) >= 1 && int(d.respondent) <= w.n && w.mems[d.respondent-1].altOK[1] {
+						w.v.Class("altenc-r1-dealer:false-complaint-against")
+					}
+					if m.altOK[1] {
+						w.v.Class("altenc-r1-member:false-complaint-by")
+					}
 					if !failed {
 						w.fail("C04/false-complaint-succeeded", "member %d (%s) complained about the CORRECT share dealt by %d and the complaint succeeded (n=%d t=%d)",
 							d.complainant, d.label, d.respondent, w.n, w.t)
@@ -1836,6 +1903,12 @@ func (w *world) checkActive() {
 		rec(0, nil, w.t-1, false)
 	}
 	w.v.Class("active-keys-checked")
+	for _, m := range w.mems {
+		if m.altOK[1] {
+			w.v.Class("altenc-r1-member:active-keys-checked")
+			break
+		}
+	}
 }
 
 // signing: the first T members of SignOrder register nonces, the chain assigns them, they sign with the key shares
@@ -1943,7 +2016,7 @@ type action struct {
 	x    c04Extra
 }
 
-var rejectedDevs = map[string]bool{"short": true, "long": true, "bada0": true, "badot": true, "replay": true, "wrongmid": true,
+var rejectedDevs = map[string]bool{"short": true, "long": true, "badlen": true, "bada0": true, "badot": true, "replay": true, "wrongmid": true,
 	"self": true, "impersonate": true, "badconfirm": true, "forged": true}
 
 func (w *world) stageActions(stage int) []action {
